@@ -30,6 +30,8 @@ type PropSpec struct {
 	Assume    []string
 	Profiles  []string // profiles cycled over jobs ("" = scenario decides from the tape)
 	Cells     int      // >0: enumerated matrix; job i gets knob cell = i % Cells
+	Real      string   // components running real code (default: the full-stack list)
+	Stub      string
 }
 
 var commonAssume = []string{
@@ -480,8 +482,11 @@ func writeEvidence(vdir string, spec *PropSpec, tier string, seed int64, a *agg,
 		"tree":                        tree,
 		"real_vs_stub": map[string]string{
 			"real": "lambda/rapidcore, lambda/rapid, lambda/rapi (server, routers, middleware, handlers, rendering), lambda/core, appctx, fatalerror, interop, agents, extensions, telemetry no-op tracer, metering except Monotime, cmd/aws-lambda-rie handlers/bootstrap/util, net/http server, chi, uuid, logrus",
-			"stub": "child processes and kernel (fake ProcessSupervisor / simulated kernel for C19), TCP (in-memory conns), clocks (bubble), main()/flags/startHTTPServer, sync.Mutex/RWMutex/Once (scheduler-owned), HTTP clients of runtime/extensions/callers (hand-written HTTP/1.1 client)",
+			"stub": "child processes and kernel (fake ProcessSupervisor), TCP (in-memory conns), clocks (bubble), main()/flags/startHTTPServer, sync.Mutex/RWMutex/Once (scheduler-owned), HTTP clients of runtime/extensions/callers (hand-written HTTP/1.1 client)",
 		},
+	}
+	if spec.Real != "" {
+		cov["real_vs_stub"] = map[string]string{"real": spec.Real, "stub": spec.Stub}
 	}
 	ev := map[string]interface{}{
 		"property_id": spec.ID,
